@@ -899,6 +899,7 @@ fn report_duplicate_definitions(
     let mut types: Vec<String> = Vec::new();
     let mut traits: Vec<String> = Vec::new();
     let mut funcs: Vec<String> = Vec::new();
+    let builtin_names = crate::env::builtin_function_names();
     for item in hir.toplevels.iter() {
         match hir_table.def(*item) {
             hir::Def::EnumDef(enum_def) => {
@@ -940,6 +941,19 @@ fn report_duplicate_definitions(
             }
             hir::Def::Fn(func) => {
                 note_params(diagnostics, hir_table, func);
+                // calls of builtins are recognised by name all the way to the Go backend (some are
+                // expanded in place, the others live in the runtime under that name): a function
+                // of the same name cannot exist next to them
+                if builtin_names.contains(&func.name) {
+                    diagnostics.push(Diagnostic::new(
+                        Stage::Typer,
+                        Severity::Error,
+                        format!(
+                            "Function {} has the name of a builtin function and cannot be defined",
+                            func.name
+                        ),
+                    ));
+                }
                 note(diagnostics, &mut funcs, func.name.clone(), "Function", "");
             }
             hir::Def::ImplBlock(block) => {
